@@ -295,7 +295,6 @@ class GParser:
         sub = node["subcon"]
         data = list(s.inp[off:off + ln])
         if sub["cls"] == "NullStripped":
-            # trailing NUL octets are stripped (pad b"\0"); symbolic octets are assumed non-NUL by the layouts that use this rule
             if sub["subcon"]["cls"] != "GreedyBytes": raise Unsupported("NullStripped over non-GreedyBytes")
             # one path per feasible number of trailing NUL octets (decided against the path condition; nothing is assumed about symbolic octets)
             # (at most two symbolic NUL octets are followed: the paths multiply over the strings of a list)
